@@ -15,7 +15,7 @@ RULE = ("Hypothesis-generated Sim descriptions: a testbench with exactly one sca
         "instance / name sources), SweepAnalysis and MonteCarlo nested to depth 3, CustomAnalysis, every sweep kind, Param, Include, "
         "Lib, Meas (analysis object or type name), Literal, Save in each documented target form (mode, signal, list of signals, name, "
         "list of names), Options with bool / number / string / literal values; numeric fields in every Scalar form (int, float, "
-        "Decimal, numeric string, Prefixed with any prefix). Each Sim is built by constructor list, by @sim class body and through the "
+        "Decimal, numeric string, Prefixed with any prefix, incl. 1..40-digit mantissas and long decimals placed 1e-29..1e-45 relative beside the midpoint of two adjacent doubles). Each Sim is built by constructor list, by @sim class body and through the "
         "add-methods, and exported alone and in lists of 1-3 Sims sharing or not sharing testbenches. Oracle: reference encoder - top "
         "names the testbench, present exactly once in the package; one entry per attribute in order with the expected kind, names, "
         "expressions, paths, sections, sweep kind and values (float nearest the exact value), inner analyses preserved, unnamed "
@@ -497,7 +497,24 @@ def strategies():
     decs = st.tuples(st.integers(-9999, 9999), st.integers(-12, 6)).map(lambda t: {"t": "dec", "v": str(Decimal(t[0]).scaleb(t[1]))})
     strs = st.tuples(st.integers(-999, 999), st.integers(-9, 9)).map(lambda t: {"t": "str", "v": "%de%d" % t})
     prefs = st.tuples(st.one_of(st.integers(-999, 999).map(str), st.sampled_from(["1.1", "0.7", "0.1", "4.1", "3", "2.50", "11"])), st.sampled_from(PREFIX_EXPS)).map(lambda t: {"t": "pref", "v": [t[0], t[1]]})
-    scalar = st.one_of(ints, floats, decs, strs, prefs, prefs)
+    import math
+    from decimal import localcontext
+
+    def midpoint(t):
+        """A long decimal just beside the midpoint of two adjacent doubles, written with prefix exponent pe: only the exact
+        value decides which double is nearest (any intermediate rounding to fewer digits lands on the midpoint itself)."""
+        x, k, up, pe = t
+        y = math.nextafter(x, math.inf)
+        with localcontext() as ctx:
+            ctx.prec = 400
+            mid = (Decimal(x) + Decimal(y)) / 2
+            val = mid + (1 if up else -1) * abs(mid).scaleb(-k)
+            return {"t": "pref", "v": [str(val.scaleb(-pe)), pe]}
+    mids = st.tuples(st.floats(min_value=1e-15, max_value=1e12, allow_nan=False, allow_infinity=False), st.integers(29, 45), st.booleans(),
+                     st.sampled_from(PREFIX_EXPS)).map(midpoint)
+    longs = st.tuples(st.integers(1, 40).flatmap(lambda n: st.integers(10 ** (n - 1), 10 ** n - 1)), st.integers(-45, 5), st.sampled_from(PREFIX_EXPS)).map(
+        lambda t: {"t": "pref", "v": [str(Decimal(t[0]).scaleb(t[1])), t[2]]})
+    scalar = st.one_of(ints, floats, decs, strs, prefs, prefs, mids, longs)
     uname = st.one_of(st.none(), st.sampled_from(["mytran", "an_x", "foo", "bar", "baz", "qux", "first", "second"]))
     sweep = st.one_of(
         st.fixed_dictionaries({"k": st.just("lin"), "start": scalar, "stop": scalar, "step": scalar}),
